@@ -355,6 +355,7 @@ func (rn *runner) enumerate(pdir string, m *reng.Model, ex *Expect, errnos map[s
 	// durability lint on the reference trace
 	rn.lint(opk, pts, work, ex)
 	refKeys := keysOfCalls(calls)
+	crashState := map[int]string{} // index of a mutating call -> state a reopen finds when the process died right before it
 	// (1) process death before every mutating call
 	for _, p := range pts {
 		if !p.Call.Mutating() {
@@ -387,6 +388,7 @@ func (rn *runner) enumerate(pdir string, m *reng.Model, ex *Expect, errnos map[s
 			continue
 		}
 		res.Count("crash_state_"+v.State, 1)
+		crashState[p.Index] = v.State
 		if v.State == "bad" {
 			rn.violate(fmt.Sprintf("%s:kill-before:%s/%s#%d", opk, p.Call.Name, p.Class, p.ClsOrd),
 				fmt.Sprintf("process death during %s before %s on %s (#%d of that kind): %s", opk, p.Call.Name, p.Class, p.ClsOrd, v.Problem),
@@ -447,6 +449,56 @@ func (rn *runner) enumerate(pdir string, m *reng.Model, ex *Expect, errnos map[s
 				rn.violate(fmt.Sprintf("%s:%s:%s/%s#%d:reported-%s:%s", opk, en, p.Call.Name, p.Class, p.ClsOrd, reported, bad),
 					fmt.Sprintf("%s with %s on %s of %s (#%d of that kind): operation reported %s, reopened state %q: %s", opk, en, p.Call.Name, p.Class, p.ClsOrd, reported, v.State, v.Problem),
 					map[string]interface{}{"op": ex.Op, "chain_before": ex.ChainBefore, "chain_after": ex.ChainAfter, "failed_call": p.Call.Raw, "errno": en, "victim_output": strings.TrimSpace(stdout), "trace": traceSummary(pts), "verdict": v})
+			}
+		}
+	}
+	// (4) the directory cannot be flushed any more: the k-th fsync of the operation and every later one fail (a full or
+	// failing disk stays that way). What is durable then is what the last successful directory fsync flushed, i.e. the
+	// state a process death right after it leaves (taken from (1): death before the next mutating call). An operation
+	// that still reports success must have had its effect flushed by then.
+	for _, p := range pts {
+		if (p.Call.Name != "fsync" && p.Call.Name != "fdatasync") || p.Class != "directory" {
+			continue
+		}
+		durable, known := "before", true
+		prevSync := -1
+		for _, q := range pts[:p.Index] {
+			if (q.Call.Name == "fsync" || q.Call.Name == "fdatasync") && q.Class == "directory" {
+				prevSync = q.Index
+			}
+		}
+		if prevSync >= 0 {
+			durable, known = "after", true // no mutating call after the last good flush: the completed state
+			for _, q := range pts[prevSync+1:] {
+				if q.Call.Mutating() {
+					durable, known = crashState[q.Index], crashState[q.Index] != ""
+					break
+				}
+			}
+		}
+		for _, en := range []string{"EIO", "ENOSPC"} {
+			if !errnos[en] {
+				continue
+			}
+			inj := fmt.Sprintf("%s:error=%s:when=%d+", p.Call.Name, en, p.Call.Ordinal)
+			fresh()
+			tr := filepath.Join(rn.scratch, "f.trace")
+			stdout, _ := rn.runVictim(work, ex.Op, inj, tr)
+			res.Count("persistent_flush_failure_runs", 1)
+			if !strings.Contains(stdout, "RESULT ok") {
+				res.Count("persistent_flush_failure_reported", 1)
+				continue
+			}
+			got, _, _ := ParseTrace(tr)
+			if !known || !prefixEqual(refKeys, keysOfCalls(got), p.Call, calls) {
+				res.Count("persistent_flush_failure_success_undecided", 1)
+				continue
+			}
+			res.Count("persistent_flush_failure_success_durable_state_"+durable, 1)
+			if durable != "after" && !(sameState(ex) && durable == "before") {
+				rn.violate(fmt.Sprintf("%s:%s:fsync/directory#%d+:reported-success:effect-not-flushed", opk, en, p.ClsOrd),
+					fmt.Sprintf("%s with %s on the directory fsync #%d and every later one: the operation reported success, but the last flush that worked left the state %q (what a power failure would leave)", opk, en, p.ClsOrd, durable),
+					map[string]interface{}{"op": ex.Op, "chain_before": ex.ChainBefore, "chain_after": ex.ChainAfter, "first_failed_call": p.Call.Raw, "errno": en, "victim_output": strings.TrimSpace(stdout), "trace": traceSummary(pts)})
 			}
 		}
 	}
@@ -518,7 +570,7 @@ func (rn *runner) lint(opk string, pts []point, dir string, ex *Expect) {
 				rn.violate(opk+":lint:metadata-temp-file-not-O_SYNC", fmt.Sprintf("%s writes %s without O_SYNC", opk, filepath.Base(p.Call.Path)), map[string]interface{}{"op": ex.Op, "call": p.Call.Raw})
 			}
 		case "fsync", "fdatasync":
-			if p.Class == "directory" {
+			if p.Class == "directory" && !strings.HasPrefix(p.Call.Ret, "-1") {
 				lastDirSync = i
 			}
 		}
